@@ -10,12 +10,12 @@ import (
 type ReassignMode int
 
 const (
-	Fresh    ReassignMode = iota // fresh unique values, random dressing
-	AllEqual                     // every string of a class gets the same value
-	Long                         // one leaf becomes very long, the rest short
-	Meta                         // JSON-metacharacter-heavy values
-	Tiny                         // 1-character values
-	CrossEqual                   // one value shared by string leaves of ALL positional classes (str, $date, $oid, $binary.base64)
+	Fresh      ReassignMode = iota // fresh unique values, random dressing
+	AllEqual                       // every string of a class gets the same value
+	Long                           // one leaf becomes very long, the rest short
+	Meta                           // JSON-metacharacter-heavy values
+	Tiny                           // 1-character values
+	CrossEqual                     // one value shared by string leaves of ALL positional classes (str, $date, $oid, $binary.base64)
 )
 
 type ReassignOpts struct {
